@@ -954,6 +954,10 @@ func main() {
 				report(&caseT{Layers: [][]imgkit.Entry{l0, l1}, Style: "plain", History: h, Req: "all"})
 			}
 			report(&caseT{Layers: [][]imgkit.Entry{l0, l1}, Style: "plain", NoCfg: true, Req: "all"})
+			// a REAL layer whose tar stream has no entries (not a history-only entry) at every position
+			for _, ls := range [][][]imgkit.Entry{{{}, l0, l1}, {l0, {}, l1}, {l0, l1, {}}} {
+				report(&caseT{Layers: ls, Style: "plain", Req: "all"})
+			}
 			for _, rq := range append([]string{"none", "empty-path-list"}, universe...) {
 				report(&caseT{Layers: [][]imgkit.Entry{l0, l1}, Style: "plain", Req: rq})
 			}
@@ -981,6 +985,19 @@ func main() {
 				fmt.Fprintf(os.Stderr, "SQ %s: %s\n", layerStr(c.Layers), d)
 			}
 			r.Violation(k, fmt.Sprintf("layers %s: %s", layerStr(c.Layers), d), c)
+		}
+	})
+	// images of ONE layer (squashing still has to apply the whiteout rules inside that layer): every
+	// layer set of <=2 entries on its own
+	r.ParallelFor(len(sets), func(i int) {
+		c := &caseT{Layers: [][]imgkit.Entry{sets[i]}, Style: "plain", Req: "all"}
+		if !anchored(c.Layers) || sameLayerInterference(sets[i]) {
+			return
+		}
+		k, d := squashCheck(c, base)
+		r.Evals.Add(1)
+		if k != "" {
+			r.Violation(k, fmt.Sprintf("single layer %s: %s", layerStr(c.Layers), d), c)
 		}
 	})
 	// the unpacker's documented defaults: a limit of 0 or less is "unset", not "none at all"
@@ -1090,5 +1107,5 @@ func main() {
 	}
 	os.RemoveAll(base)
 	r.Assume("imgkit.Model.Apply (~60 lines) is the OCI image-spec change-set application: whiteouts act on lower layers only, then the layer's entries are added")
-	r.Finish(fmt.Sprintf("universe %v; entry kinds: file(2 contents/modes), dir, whiteout, opaque marker per path + 4 symlinks (%d options); layers = all well-formed sets of <=%d entries (%d); all 1- and 2-layer images, every entry order per layer (plain names), canonical order with './' and '/' name styles; for images where an upper layer touches a lower one: 5 history arrangements incl. empty layers at every position and a short history, missing config, requirer none / empty path list / each path (the library's path requirer); deep-pruning family (file 4 levels down x requirers); prefix-sibling family (names a, a/x, ab, ab/x, a.b, a.wh.b, hw, .w; lower layer <=2 (thorough 3) entries x upper layer 1 (thorough <=2) entry, + a third layer on top); squashed on-disk unpack AND a FromTarball load of the saved tarball for all pairs of single-entry layers (and every single-entry layer with the unpacker's limits set to 0 and to -1, both documented as 'unset'); thorough adds all 3-layer images (<=%d,<=%d,1). Each view: Stat/Open+Read (plus: a second handle opened while the first is part-way through, ReadAt at every offset, Seek from the end) on every universe path + 2 absent paths, ReadDir of every directory, WalkDir. non-trivial = an upper-layer entry overlaps a lower-layer entry", universe, len(opts), maxEntries, len(sets), maxEntries, maxEntries), complete)
+	r.Finish(fmt.Sprintf("universe %v; entry kinds: file(2 contents/modes), dir, whiteout, opaque marker per path + 4 symlinks (%d options); layers = all well-formed sets of <=%d entries (%d); all 1- and 2-layer images, every entry order per layer (plain names), canonical order with './' and '/' name styles; for images where an upper layer touches a lower one: 5 history arrangements incl. empty layers at every position and a short history, a real layer with an entry-less tar stream at every position, missing config, requirer none / empty path list / each path (the library's path requirer); deep-pruning family (file 4 levels down x requirers); prefix-sibling family (names a, a/x, ab, ab/x, a.b, a.wh.b, hw, .w; lower layer <=2 (thorough 3) entries x upper layer 1 (thorough <=2) entry, + a third layer on top); squashed on-disk unpack AND a FromTarball load of the saved tarball for all pairs of single-entry layers, all one-layer images of <=2 entries (and every single-entry layer with the unpacker's limits set to 0 and to -1, both documented as 'unset'); thorough adds all 3-layer images (<=%d,<=%d,1). Each view: Stat/Open+Read (plus: a second handle opened while the first is part-way through, ReadAt at every offset, Seek from the end) on every universe path + 2 absent paths, ReadDir of every directory, WalkDir. non-trivial = an upper-layer entry overlaps a lower-layer entry", universe, len(opts), maxEntries, len(sets), maxEntries, maxEntries), complete)
 }
